@@ -73,7 +73,8 @@ SameSent(want, got) ==
        [] OTHER -> got.b = want.b \/ got.b = <<Len(want.b)>> \o want.b \/ want.b = <<Len(got.b)>> \o got.b
 RxClause(v) ==
   LET d == Decode(v.payload, ChIdx(v.rfch)) IN
-  IF v.exc # "none" THEN <<"C19.NoRaise", "available() raised " \o v.exc>>
+  IF v.exc = "NotListening" THEN <<"C19.Decodes", "the receiving object's radio did not take a packet sent on its channel and address">>
+  ELSE IF v.exc # "none" THEN <<"C19.NoRaise", "available() raised " \o v.exc>>
   ELSE IF ~d.ok THEN (IF v.queued > 0 THEN <<"C19.RejectsInvalid", "queued a payload with inconsistent " \o d.why>> ELSE OK)
   ELSE IF d.rfu /\ v.queued = 0 THEN OK                       \* reserved length bits set: ignoring the packet is fine; if it is queued it must decode (6-bit length)
   ELSE IF d.len < 6 \/ d.hdr # 66 THEN OK                     \* not a non-connectable advertisement with an AdvA: either way
